@@ -236,6 +236,10 @@ def watcher_ctor_fn(ctx):
     """the watcher constructor: the innermost local fn returning Result<Option<TargetWatcher>> whose view constructs a TargetWatcher"""
     r = ctx.r
     cands = [b for b in ctx.f.user_bodies() if re.search(r"Result<std::option::Option<[\w:]*TargetWatcher>", b.ret) and b.kind in ("Fn", "AssocFn") and list(r.V(b).aggregates("TargetWatcher"))]
+    if not cands:
+        # under another signature (`InvalidationSource::new(..) -> Result<Self>`): the local fn that builds a TargetWatcher and registers paths with the back-end
+        cands = [b for b in ctx.f.user_bodies() if b.kind in ("Fn", "AssocFn") and list(r.V(b).aggregates("TargetWatcher")) and
+                 any(re.search(r"Watcher>?::watch$", t["callee"]["base"]) for x in [b.name] + sorted(ctx.f.cg.reach([b.name], cross_spawn=False)) if x in ctx.f.bodies for _, t in ctx.f.bodies[x].calls())]
     out = [r.V(b) for b in r.minimal(cands)]
     ctx.need(out, "watcher constructor (-> Result<Option<TargetWatcher>>, builds a TargetWatcher)")
     return out
@@ -323,7 +327,7 @@ def watch_option_wired(ctx):
     ctx.need(n >= 2, "construction of WatchOption::Enabled and its use in main")
 
 
-@rule("C06.WATCHER-RETAINED", ["C06", "C13"], """in watch mode the launcher builds the watcher from the target's whole input and the actor's own invalidation sender, and keeps
+@rule("C06.WATCHER-RETAINED", ["C06", "C13", "C16"], """in watch mode the launcher builds the watcher from the target's whole input and the actor's own invalidation sender, and keeps
       it alive in the handle set stored by TargetActors""", "K5", floor=2)
 def watcher_retained(ctx):
     r = ctx.r
@@ -336,7 +340,7 @@ def watcher_retained(ctx):
         Ren = variant_region(L, "WatchOption", "Enabled")
         calls = calls_in(L, Ren, lambda n: n in ctors)
         if not calls:
-            ctx.bad(f"{lab}/ctor", [L.loc()], "the launcher does not build a watcher in watch mode")
+            ctx.bad(f"{lab}/ctor", [L.loc()], "the launcher does not build a watcher in watch mode", props=["C06", "C13"])
             continue
         for bb, t in calls:
             in_at = L.prov.operand_atoms(t["args"][1]) if len(t["args"]) > 1 else set()
@@ -344,11 +348,11 @@ def watcher_retained(ctx):
             from_input = bool(atom_callres(in_at) & input_fns) or atom_has_field(in_at, "input")
             own_sender = any(c.startswith("async_std::channel::bounded") or c.startswith("async_std::channel::unbounded") for c in atom_callres(snd_at))
             ctx.check(from_input and own_sender, f"{lab}/ctor-args", [site(L, bb)],
-                      "the watcher is not built from the target's declared input and the actor's own invalidation sender")
+                      "the watcher is not built from the target's declared input and the actor's own invalidation sender", props=["C06", "C13"])
             # the result flows into a handle set, and the handle set into the registry's map
             fl = L.prov.flows_forward(t["dest"]["local"])
             stored = [(x, st) for (x, st) in L.aggregates("TargetActorHandleSet") if any(operand_local(o) in fl for o in st["rv"]["ops"])]
-            ctx.check(bool(stored), f"{lab}/kept", [site(L, x) for x, _ in stored] or [site(L, bb)], "the watcher is dropped after construction: watching stops at once")
+            ctx.check(bool(stored), f"{lab}/kept", [site(L, x) for x, _ in stored] or [site(L, bb)], "the watcher is dropped after construction: watching stops at once", props=["C06", "C13"])
             # the handle set also keeps the actor's own end of the invalidation channel, unconditionally: a watcher without any file watcher (only command
             # resources, or no existing path) holds no clone, and a channel whose last sender is gone makes the actor's file-change arm fire for ever
             def chan_calls(o):
@@ -362,22 +366,68 @@ def watcher_retained(ctx):
                 return out
             sl = operand_local(t["args"][2]) if len(t["args"]) > 2 else None
             own = chan_calls(origins(L, sl)) if sl is not None else set()
+            f_ = ctx.f
+            def holder_adts():
+                """ADTs every construction of which stores a sender of the invalidation channel taken from a parameter of the constructing fn (`TargetWatcher { _watchers, _sender:
+                sender.clone() }`): a value of such a type keeps the channel open as long as it lives"""
+                out = set()
+                for _ in range(3):
+                    for ap, adt in f_.adts.items():
+                        if ap in out or ap.startswith("std::"):
+                            continue
+                        sites_ = [(xb, sb, ss) for xb in f_.user_bodies() for (sb, ss) in xb.aggregates(ap.split("::")[-1]) if ss["rv"].get("adt") == ap]
+                        if not sites_:
+                            continue
+                        good = True
+                        for (xb, sb, ss) in sites_:
+                            one = False
+                            for op_ in ss["rv"]["ops"]:
+                                ol_ = operand_local(op_)
+                                if ol_ is None:
+                                    continue
+                                ty_ = re.sub(r"^(&(mut )?)+", "", xb.locals[ol_]["ty"])
+                                if re.search(r"Sender<[\w:]*TargetInvalidatedMessage>$", ty_):
+                                    at_ = xb.prov.operand_atoms(op_, interproc=False)
+                                    if any(a[0] == "param" or (a[0] == "field" and a[1].startswith("{env of")) for a in at_):
+                                        one = True
+                                elif ty_ in out:
+                                    one = True
+                            if not one:
+                                good = False
+                        if good:
+                            out.add(ap)
+                return out
+            holders = holder_adts()
+            def keeps_sender(ol, depth=0):
+                if ol is None or depth > 4:
+                    return False
+                og = origins(L, ol)
+                if not og:
+                    return False
+                if chan_calls(og) & own and all(y[0] == "field" or (y[0] == "call" and (y[1].startswith("async_std::channel::") or y[1].endswith("::clone"))) for y in flat_origins(og)):
+                    return True
+                # a value of a type that always holds a sender (the watcher itself)
+                ty_ = re.sub(r"^(&(mut )?)+", "", L.locals[ol]["ty"])
+                if ty_ in holders:
+                    return True
+                # a small local enum / struct built here: every way it is built keeps one (`Watcher(w)` or `Idle(sender)`)
+                aggs = [y for y in og if y[0] == "agg"]
+                if aggs and len(aggs) == len(og):
+                    return all(any(keeps_sender(operand_local(o2), depth + 1) for o2 in y[4]["rv"]["ops"]) for y in aggs)
+                return False
             for (x, st) in stored:
-                keeps = False
-                for o in st["rv"]["ops"]:
-                    ol = operand_local(o)
-                    og = origins(L, ol) if ol is not None else []
-                    if og and chan_calls(og) & own and all(y[0] == "field" or (y[0] == "call" and (y[1].startswith("async_std::channel::") or y[1].endswith("::clone")))
-                                                            for y in flat_origins(og)):
-                        keeps = True
+                keeps = any(keeps_sender(operand_local(o)) for o in st["rv"]["ops"])
                 ctx.check(keeps, f"{lab}/own-sender-kept", [site(L, x)],
                           "the handle set does not keep the actor's own invalidation sender on every path: with nothing to watch the channel closes and the file-change arm "
-                          "fires for ever (the target is re-invalidated in a loop and never reports success)", props=["C06"])
+                          "fires for ever (the target is re-invalidated in a loop and never reports success)", props=["C06", "C16"])
             def stored_in_registry(B, local, depth=0):
                 """insert sites (body, block) of the registry's map that receive `local`, following returns to the callers"""
                 fl2 = B.prov.flows_forward(local)
                 out = [(B, cb) for cb, ct in B.calls()
                        if callee_decl(ct).endswith("::insert") and "TargetActorHandleSet" in callee_decl(ct) and len(ct["args"]) > 2 and operand_local(ct["args"][2]) in fl2]
+                # (entry API: `vacant_entry.insert(handles)` / `entry.or_insert(handles)`)
+                out += [(B, cb) for cb, ct in B.calls()
+                        if re.search(r"(VacantEntry::<.*>::insert|Entry::<.*>::or_insert\w*)$", callee_decl(ct)) and "TargetActorHandleSet" in callee_decl(ct) and len(ct["args"]) > 1 and operand_local(ct["args"][1]) in fl2]
                 if not out and 0 in fl2 and depth < 3:
                     for (cb2, bb2, t2) in r.callers_of(B):
                         if t2.get("dest") is not None:
@@ -387,9 +437,9 @@ def watcher_retained(ctx):
             for (x, st) in stored:
                 for (B, cb) in stored_in_registry(L, st["lhs"]["local"]):
                     kept = True
-                    ctx.ok(f"{lab}/handles-stored", [site(B, cb)])
+                    ctx.ok(f"{lab}/handles-stored", [site(B, cb)], props=["C06", "C13"])
             if not kept:
-                ctx.bad(f"{lab}/handles-stored", [site(L, bb)], "the handle set (which owns the watcher) is not stored in the registry: the watcher is dropped")
+                ctx.bad(f"{lab}/handles-stored", [site(L, bb)], "the handle set (which owns the watcher) is not stored in the registry: the watcher is dropped", props=["C06", "C13"])
 
 
 # ------------------------------------------------------------------ C08
@@ -419,7 +469,27 @@ def watcher_only_in_watch(ctx):
     for c in ctors:
         for (cb, bb, t) in r.callers_of(c, prefer=[]):
             Ren = variant_region(cb, "WatchOption", "Enabled")
-            ctx.check(bb in Ren, f"{short(cb.origin(bb))}/ctor-call", [site(cb, bb)], "a watcher is created outside the WatchOption::Enabled branch: in a one-shot run a file change could re-run a target")
+            ok_ = bb in Ren
+            if not ok_:
+                # the constructor is always called, but is given something to watch only in watch mode: its optional input is `None` unless assigned under
+                # WatchOption::Enabled (`let watched = match watch { Enabled => target.input(), Disabled => None }`)
+                for a_ in t["args"]:
+                    l_ = operand_local(a_)
+                    if l_ is None or not re.search(r"Option<&?[\w:]*Resources>", cb.locals[l_]["ty"]):
+                        continue
+                    defs_ = [(k_, x_, b_) for (k_, x_, b_) in cb.prov.defs.get(l_, ()) if k_ in ("assign", "call")]
+                    for _hop in range(4):   # through plain copies of the variable
+                        if len(defs_) == 1 and defs_[0][0] == "assign" and defs_[0][1]["rv"]["k"] == "use" and defs_[0][1]["rv"]["op"]["k"] in ("copy", "move") and not defs_[0][1]["rv"]["op"]["place"]["proj"]:
+                            defs_ = [(k_, x_, b_) for (k_, x_, b_) in cb.prov.defs.get(defs_[0][1]["rv"]["op"]["place"]["local"], ()) if k_ in ("assign", "call")]
+                        else:
+                            break
+                    srcs_ = []
+                    for (k_, x_, b_) in defs_:
+                        is_none = k_ == "assign" and x_["rv"]["k"] == "agg" and x_["rv"].get("variant") == "None"
+                        srcs_.append((b_, is_none))
+                    if srcs_ and all(is_none or b_ in Ren for (b_, is_none) in srcs_) and any(is_none for (_, is_none) in srcs_):
+                        ok_ = True
+            ctx.check(ok_, f"{short(cb.origin(bb))}/ctor-call", [site(cb, bb)], "a watcher is created outside the WatchOption::Enabled branch: in a one-shot run a file change could re-run a target")
     # notify Watcher::new only reachable from the constructor
     reach = set()
     for c in ctors:
@@ -478,5 +548,9 @@ def closure_only(ctx):
         def has_key(d):
             return d[0] == "call" and d[1].endswith("::contains_key") and d[2] and (atom_has_field(d[2][0], "target_actor_handles") or any("TargetActorHandleSet" in str(x) for x in d[2][0]))
         G = guard_region(L, has_key, False)
+        # ... or under the `Vacant` side of the entry of the handle-set map (the `Occupied` side hands back what is stored)
+        for e in L.edges:
+            if e.label and e.label[0] == "variant" and e.label[2] == ("Vacant",) and "TargetActorHandleSet" in str(e.label[3].get("ty") if isinstance(e.label[3], dict) else ""):
+                G = G | L.dominated_by_edge(e)
         ctx.check(from_remove and bb in G, f"{short(L.name)}/launch-once@{short(callee_base(t))}", [site(L, bb)],
                   "an actor can be launched more than once for the same target (not guarded by `!handles.contains_key(id)` or not fed from the removed map entry)", props=["C08", "C09"])
